@@ -332,4 +332,22 @@ def run(ctx: Ctx, tier: str) -> Result:
                                          "unlocked read-modify-write of handler state: two submitting threads can obtain "
                                          "the same job id and overwrite each other's pending future (flush misses one)"))
     res.floor("read-modify-write sites in TaskHandler", n_rmw, 1)
+    # what a critical section worked out is used as it was worked out: a field assigned under the lock is not read again
+    # outside of it (the id of a job is the value its own increment produced, not what the counter holds a moment later)
+    from .common import guarded_field_escapes, lock_leaks
+    gfields, esc = guarded_field_escapes(ctx, th)
+    for m_, n_, f_ in esc:
+        res.fail(Finding("C09.E", m_.qname, n_, m_.loc(n_), "`self.%s` is assigned inside the handler's critical section and %s again outside of it: two threads "
+                         "submitting together get the same job id, one pending future overwrites the other and flush() misses an accepted task" % (
+                             f_, "written" if isinstance(n_.ctx, (ast.Store, ast.Del)) else "read")))
+    if not esc:
+        res.ok("C09.E", {"fields assigned under the lock are only used under it": gfields})
+    # a lock taken on the way of a snapshot to the service is given back whatever happens (one failing send must not
+    # block every later one)
+    pipeline = [f for f in p.functions.values() if f.module.name.startswith(("deep.task", "deep.push", "deep.grpc"))]
+    leaks = lock_leaks(ctx, pipeline)
+    for f_, c_, why in leaks:
+        res.fail(Finding("C09.F", f_.qname, c_, f_.loc(c_), "`%s` is %s: every later snapshot task (and the poll) blocks behind one failed send" % (norm(c_), why)))
+    if not leaks:
+        res.ok("C09.F", {"no explicit lock acquisition without a guaranteed release on the send path": len(pipeline)})
     return res
